@@ -25,6 +25,10 @@ func (i *JsUnixTime) UnmarshalJSON(b []byte) error {
 		return ErrInvalidInt64Js
 	}
 
+	if b[0] != '"' || b[lb-1] != '"' {
+		return ErrInvalidInt64Js
+	}
+
 	strBuf := string(b[1 : lb-1])
 	t, err := strconv.Atoi(strBuf)
 	if err != nil {
@@ -51,6 +55,10 @@ func (i JsNanoTime) MarshalJSON() ([]byte, error) {
 func (i *JsNanoTime) UnmarshalJSON(b []byte) error {
 	lb := len(b)
 	if lb <= 2 {
+		return ErrInvalidInt64Js
+	}
+
+	if b[0] != '"' || b[lb-1] != '"' {
 		return ErrInvalidInt64Js
 	}
 
